@@ -356,6 +356,9 @@ def _run_impl(line, extra=None):
         if st == "ok":
             return "ok " + pv_enc(v)
         return "err TIMEOUT" if st == "timeout" else "err " + v
+    if op == "shuf":
+        return render(*guarded(lambda: SW.create_random_shuffles(int(t[1]), random_seed=int(t[2]))),
+                      lambda tb: "".join(str(int(x)) for x in np.asarray(tb).reshape(-1)))
     if op == "add":
         return plain(lambda: OP.calculus_addition(t[1], t[2]))
     if op == "sub":
